@@ -29,31 +29,38 @@ GroupEnd(b, p, num, depth) ==
         [] OTHER -> 0
 
 \* field record: num, wt, v = raw varint magnitude (wt 0), payload span ps..pe (wt 1, 2, 5), raw span rs..re
+\* one field at position p (p <= Len(b)): [ok, err, fld, next]
+NoField == [num |-> 0, wt |-> 0, v |-> <<>>, ps |-> 0, pe |-> 0, rs |-> 0, re |-> 0]
+F1Err(e) == [ok |-> FALSE, err |-> e, fld |-> NoField, next |-> 0]
+F1Ok(f, nx) == [ok |-> TRUE, err |-> "", fld |-> f, next |-> nx]
+Field1(b, p) ==
+  LET t == DecVarint(b, p) IN
+    IF ~t.ok THEN F1Err("truncated_tag")
+    ELSE IF TagNumMag(t.val) = <<>> THEN F1Err("field_zero")
+    ELSE IF BitLen(TagNumMag(t.val)) > 29 THEN F1Err("field_number_range")
+    ELSE LET wt == TagWt(t.val)  num == ToNat(TagNumMag(t.val)) IN
+      CASE wt = 0 -> (LET v == DecVarint(b, t.next) IN
+                      IF ~v.ok THEN F1Err("truncated_varint")
+                      ELSE F1Ok([num |-> num, wt |-> 0, v |-> v.val, ps |-> 0, pe |-> 0, rs |-> p, re |-> v.next - 1], v.next))
+        [] wt = 1 -> IF t.next + 7 > Len(b) THEN F1Err("truncated_fixed64")
+                     ELSE F1Ok([num |-> num, wt |-> 1, v |-> <<>>, ps |-> t.next, pe |-> t.next + 7, rs |-> p, re |-> t.next + 7], t.next + 8)
+        [] wt = 5 -> IF t.next + 3 > Len(b) THEN F1Err("truncated_fixed32")
+                     ELSE F1Ok([num |-> num, wt |-> 5, v |-> <<>>, ps |-> t.next, pe |-> t.next + 3, rs |-> p, re |-> t.next + 3], t.next + 4)
+        [] wt = 2 -> (LET l == DecVarint(b, t.next) IN
+                      IF ~l.ok THEN F1Err("truncated_length")
+                      ELSE IF ~FitsNat(l.val) \/ (l.next + ToNat(l.val)) - 1 > Len(b) THEN F1Err("truncated_payload")
+                      ELSE LET n == ToNat(l.val) IN
+                           F1Ok([num |-> num, wt |-> 2, v |-> <<>>, ps |-> l.next, pe |-> (l.next + n) - 1, rs |-> p, re |-> (l.next + n) - 1], l.next + n))
+        [] wt = 3 -> (LET e == GroupEnd(b, t.next, num, 0) IN
+                      IF e = 0 THEN F1Err("bad_group")
+                      ELSE F1Ok([num |-> num, wt |-> 3, v |-> <<>>, ps |-> t.next, pe |-> e, rs |-> p, re |-> e], e + 1))
+        [] wt = 4 -> F1Err("unmatched_end_group")
+        [] OTHER -> F1Err("bad_wiretype")
 RECURSIVE PF(_, _, _)
 PF(b, p, out) ==
   IF p > Len(b) THEN [ok |-> TRUE, err |-> "", fields |-> out]
-  ELSE LET t == DecVarint(b, p) IN
-    IF ~t.ok THEN Err("truncated_tag", out)
-    ELSE IF TagNumMag(t.val) = <<>> THEN Err("field_zero", out)
-    ELSE IF BitLen(TagNumMag(t.val)) > 29 THEN Err("field_number_range", out)
-    ELSE LET wt == TagWt(t.val)  num == ToNat(TagNumMag(t.val)) IN
-      CASE wt = 0 -> (LET v == DecVarint(b, t.next) IN
-                      IF ~v.ok THEN Err("truncated_varint", out)
-                      ELSE PF(b, v.next, Append(out, [num |-> num, wt |-> 0, v |-> v.val, ps |-> 0, pe |-> 0, rs |-> p, re |-> v.next - 1])))
-        [] wt = 1 -> IF t.next + 7 > Len(b) THEN Err("truncated_fixed64", out)
-                     ELSE PF(b, t.next + 8, Append(out, [num |-> num, wt |-> 1, v |-> <<>>, ps |-> t.next, pe |-> t.next + 7, rs |-> p, re |-> t.next + 7]))
-        [] wt = 5 -> IF t.next + 3 > Len(b) THEN Err("truncated_fixed32", out)
-                     ELSE PF(b, t.next + 4, Append(out, [num |-> num, wt |-> 5, v |-> <<>>, ps |-> t.next, pe |-> t.next + 3, rs |-> p, re |-> t.next + 3]))
-        [] wt = 2 -> (LET l == DecVarint(b, t.next) IN
-                      IF ~l.ok THEN Err("truncated_length", out)
-                      ELSE IF ~FitsNat(l.val) \/ (l.next + ToNat(l.val)) - 1 > Len(b) THEN Err("truncated_payload", out)
-                      ELSE LET n == ToNat(l.val) IN
-                           PF(b, l.next + n, Append(out, [num |-> num, wt |-> 2, v |-> <<>>, ps |-> l.next, pe |-> (l.next + n) - 1, rs |-> p, re |-> (l.next + n) - 1])))
-        [] wt = 3 -> (LET e == GroupEnd(b, t.next, num, 0) IN
-                      IF e = 0 THEN Err("bad_group", out)
-                      ELSE PF(b, e + 1, Append(out, [num |-> num, wt |-> 3, v |-> <<>>, ps |-> t.next, pe |-> e, rs |-> p, re |-> e])))
-        [] wt = 4 -> Err("unmatched_end_group", out)
-        [] OTHER -> Err("bad_wiretype", out)
+  ELSE LET f == Field1(b, p) IN
+       IF ~f.ok THEN Err(f.err, out) ELSE PF(b, f.next, Append(out, f.fld))
 ParseFields(b) == PF(b, 1, <<>>)
 
 (* encoding side: one field occurrence *)
